@@ -16,8 +16,10 @@ import time
 
 ROOT = os.path.dirname(os.path.dirname(os.path.abspath(__file__)))
 HARN = os.path.join(ROOT, "harness")
-WORK = os.path.join(ROOT, "work")
-EVID = os.path.join(ROOT, "evidence")
+# VERIF_WORK / VERIF_EVIDENCE are development overrides (used to run seeded changes side by side);
+# the registered commands never set them
+WORK = os.environ.get("VERIF_WORK") or os.path.join(ROOT, "work")
+EVID = os.environ.get("VERIF_EVIDENCE") or os.path.join(ROOT, "evidence")
 REPLAYS = os.path.join(EVID, "replays")
 REPO = "/repo"
 
